@@ -1,7 +1,9 @@
 package main
 
 import (
+	"fmt"
 	"go/types"
+	"os"
 	"regexp"
 	"sort"
 	"strings"
@@ -408,6 +410,15 @@ func (o *Ob) Table(fn *ssa.Function, key string, rows []Row) {
 		cut := e.CutContradicting(all...)
 		r := (&Walk{Fn: fn, Cut: cut}).FromEntry()
 		rets := r.Returns()
+		if os.Getenv("AMVERIF_DEBUG") == "table" {
+			var bs []string
+			for _, b := range fn.Blocks {
+				if r.Block[b.Index] {
+					bs = append(bs, itoa(b.Index))
+				}
+			}
+			fmt.Fprintf(os.Stderr, "TABLE %s row %q reaches blocks %s\n", fnName(fn), row.Name, strings.Join(bs, ","))
+		}
 		var ds []string
 		for _, a := range all {
 			ds = append(ds, a.Desc)
